@@ -23,8 +23,14 @@
  *
  * usage: harness <maxlen> <accmax> <job> <njobs> <statfile> <accfile> <mode> [resume]
  * mode: "sym"   the class/keyword alphabet of c30_syms.h
+ *       "sym2"  the second (keyword / standard-name) alphabet of c30_syms.h
  *       "bytes" every byte value 1..255 as a one-byte symbol (shallow, wide)
  *       "ascii" the 97 bytes \t \n 0x20..0x7e
+ *       "list:<file>"  no enumeration: the explicit strings of <file>
+ *               (u32 count, then per string u16 length + bytes, no NUL inside,
+ *               at most MAXBYTES-1 bytes each); maxlen is ignored; the "sequence"
+ *               journalled / reported for string number i is the 4 bytes of i
+ *               (big endian)
  */
 #define _GNU_SOURCE
 #include <stdint.h>
@@ -195,19 +201,28 @@ static int run_parse(const char *input, int nslots, size_t *used,
     return r;
 }
 
+static void process_string(const char *buf, int nbytes, int len, const unsigned char *seq, int accmax);
+
 static void one_string(int len, const unsigned char *seq, int accmax)
 {
     char buf[MAXBYTES];
-    int i, nbytes = 0, r1, r2, r3;
-    size_t n1, n2, n3;
-    char *input;
-    struct _cffi_parse_info_s i1, i2, i3;
+    int i, nbytes = 0;
 
     for (i = 0; i < len; i++) {
         memcpy(buf + nbytes, sym[seq[i]], symlen[seq[i]]);
         nbytes += symlen[seq[i]];
     }
     buf[nbytes] = 0;
+    process_string(buf, nbytes, len, seq, accmax);
+}
+
+static void process_string(const char *buf, int nbytes, int len, const unsigned char *seq, int accmax)
+{
+    int r1, r2, r3;
+    size_t n1, n2, n3;
+    char *input;
+    struct _cffi_parse_info_s i1, i2, i3;
+
     /* journal first */
     S->cur_len = len;
     memcpy(S->cur_seq, seq, len);
@@ -273,6 +288,7 @@ int main(int argc, char **argv)
 {
     int maxlen, accmax, job, njobs, L, i, resume = 0;
     unsigned char seq[MAXL];
+    const char *listfile = NULL;
 
     if (argc < 7) die("usage");
     maxlen = atoi(argv[1]); accmax = atoi(argv[2]);
@@ -282,6 +298,14 @@ int main(int argc, char **argv)
     if (strcmp(argv[7], "sym") == 0) {
         nsym = NSYM;
         for (i = 0; i < NSYM; i++) { sym[i] = SYM[i]; symlen[i] = SYMLEN[i]; }
+    }
+    else if (strcmp(argv[7], "sym2") == 0) {
+        nsym = NSYM2;
+        for (i = 0; i < NSYM2; i++) { sym[i] = SYM2[i]; symlen[i] = SYM2LEN[i]; }
+    }
+    else if (strncmp(argv[7], "list:", 5) == 0) {
+        listfile = argv[7] + 5;
+        nsym = 256;
     }
     else {
         int lo = 1, hi = 255, c;
@@ -311,6 +335,37 @@ int main(int argc, char **argv)
 
     for (i = 0; i <= MAXBYTES; i++) strblock[i] = malloc(i);
     for (i = 0; i <= OUTMAX; i++) outblock[i] = malloc(i * sizeof(_cffi_opcode_t));
+
+    if (listfile != NULL) {
+        /* explicit strings */
+        FILE *lf = fopen(listfile, "rb");
+        unsigned char hdr[4], lh[2];
+        unsigned long count, k, first = 0;
+        static char lbuf[MAXBYTES];
+        if (lf == NULL || fread(hdr, 1, 4, lf) != 4) die("list file");
+        count = ((unsigned long)hdr[0] << 24) | (hdr[1] << 16) | (hdr[2] << 8) | hdr[3];
+        if (resume)    /* skip the string that killed the previous run */
+            first = (((unsigned long)S->cur_seq[0] << 24) | (S->cur_seq[1] << 16) |
+                     (S->cur_seq[2] << 8) | S->cur_seq[3]) + 1;
+        for (k = 0; k < count; k++) {
+            int n;
+            if (fread(lh, 1, 2, lf) != 2) die("list file: truncated");
+            n = (lh[0] << 8) | lh[1];
+            if (n > MAXBYTES - 1) die("list file: string too long");
+            if (n > 0 && fread(lbuf, 1, n, lf) != (size_t)n) die("list file: truncated string");
+            lbuf[n] = 0;
+            if (strlen(lbuf) != (size_t)n) die("list file: NUL inside a string");
+            if (k < first || (int)(k % (unsigned long)njobs) != job)
+                continue;
+            seq[0] = (unsigned char)(k >> 24); seq[1] = (unsigned char)(k >> 16);
+            seq[2] = (unsigned char)(k >> 8);  seq[3] = (unsigned char)k;
+            process_string(lbuf, n, 4, seq, accmax);
+        }
+        fclose(lf);
+        S->finished = 1;
+        msync(S, sizeof(*S), MS_SYNC);
+        return 0;
+    }
 
     /* enumeration: length L ascending; the first min(L,2) symbols select the job */
     if (resume) {
